@@ -9,7 +9,7 @@ model function is a theorem about the code as translated today (`gen_*` theorems
 When the source changes behaviour, `Gen/Src.lean` changes and the corresponding proof stops type-checking.
 
 Theorems are grouped by the property whose check builds them: namespaces `GenProps.C02`, `.C05`, `.C06`, `.C07`,
-`.C10`, `.C12`, `.C13` (a check passes `extra_props=("Gen",)` and gets the theorems of its own namespace)
+`.C10`, `.C12`, `.C13`, `.C15` (a check passes `extra_props=("Gen",)` and gets the theorems of its own namespace)
 (`GenProps.C13`: the padding count, available to the C13 check through `lean_stage(extra_props=("Gen",))`).
 Helper lemmas are in `Lemmas/GenBridge.lean`.
 -/
@@ -330,3 +330,41 @@ theorem sm3_expanded_shape_rank_and_count (shape : List Nat) (i : Nat) (hi : i <
 example : Gen.sm3ExpandedShape [4, 5, 6] 1 = [1, 5, 1] := by decide
 
 end PrecondVerif.GenProps.C12
+
+namespace PrecondVerif.GenProps.C15
+open PrecondVerif PrecondVerif.GenBridge
+
+/-! `Model/Tearfree.lean` (C15) derives the merged / padded shape, the blocks of Tearfree Shampoo and the graft mask with
+these `Model/Shapes.lean` / `Model/Graft.lean` functions (`secondOrderTx`, `shampooTx`, `graftTx`); the bridges make the
+composition theorems of `Props/C15.lean` speak about the shape bookkeeping as translated from the source today. -/
+
+/-- `reshaper._derive_shapes` as translated = `Shapes.deriveShapes` (original, merged, padded). -/
+theorem derive_shapes_bridge (mergeDims blockSize : Nat) (shape : List Nat) :
+    Gen.deriveShapes (mergeDims : Int) (blockSize : Int) (ints shape) =
+      (ints (Shapes.deriveShapes mergeDims blockSize shape).original,
+       ints (Shapes.deriveShapes mergeDims blockSize shape).merged,
+       ints (Shapes.deriveShapes mergeDims blockSize shape).padded) :=
+  deriveShapes_bridge mergeDims blockSize shape
+
+/-- `distributed_shampoo.merge_small_dims` (called by `_derive_shapes`) = `Shapes.mergeSmallDims`. -/
+theorem merge_small_dims_bridge (s : List Nat) (m : Nat) :
+    Gen.mergeSmallDims (ints s) (m : Int) = ints (Shapes.mergeSmallDims s m) :=
+  mergeSmallDims_bridge s m
+
+/-- `tearfree.shampoo._blocks_metadata` as translated = `Shapes.blocksMetadata`. -/
+theorem blocks_metadata_bridge (blockSize : Nat) (shape : List Nat) :
+    Gen.blocksMetadata (blockSize : Int) (ints shape) =
+      (let m := Shapes.blocksMetadata blockSize shape
+       (ints m.blockSizes, (m.numBlocks : Int), (m.largeBlockSize : Int), ints m.paramShape, ints m.largeAxes,
+        ints m.blocksPerLargeAxis, (m.blocksAxis : Int))) :=
+  blocksMetadata_bridge blockSize shape
+
+/-- the predicate of `grafting._mask_skipped` — evaluated on the ORIGINAL shape — = `Graft.tfMaskSkipped`. -/
+theorem tf_mask_skipped_bridge (rank1 : Bool) (anyDimGt : Nat) (shape : List Nat) :
+    Gen.tfMaskSkipped rank1 (anyDimGt : Int) (ints shape) = Graft.tfMaskSkipped rank1 anyDimGt shape :=
+  tfMaskSkipped_bridge rank1 anyDimGt shape
+
+/-- the probe's lesson on the translated source: `(4, 6)` reaches Shampoo as `[24]`, yet is not masked. -/
+example : Gen.deriveShapes 1024 1024 [4, 6] = ([4, 6], [24], [24]) ∧ Gen.tfMaskSkipped true 4096 [4, 6] = false := by decide
+
+end PrecondVerif.GenProps.C15
